@@ -477,7 +477,8 @@ class ProcProxyThread(threading.Thread):
         else:
             sp_stdout = sys.stdout
         # stderr
-        if self.errwrite == self.c2pwrite:
+        if self.errwrite != -1 and self.errwrite == self.c2pwrite:
+            # (with neither stream redirected both are -1: that is not `e>o`)
             sp_stderr = sp_stdout
         elif self.errwrite != -1:
             sp_stderr = io.TextIOWrapper(
